@@ -162,5 +162,41 @@ CHECKS["C16"] = {
     ],
 }
 
+CHECKS["C04"] = {
+    "pkg": "./checks/c04",
+    "level": "exploration",
+    "technique": "property-based mutation testing of genuine proofs against an independent verdict (math/big k*H(secret) from the re-derived mint keys)",
+    "rule": ("rapid: a real mint with 1..3 keysets (rotations with fee in {0,100,1000}, optional restart) holding genuinely minted proofs; 3..8 trials per case: one proof and one mutation out of "
+             "{none, amount -> other denomination / 0 / 3 / 2^60 / 2^64-1, id -> other known / unknown / non-hex / empty, C -> nibble flip / other proof's C / x not on curve / wrong length / non-hex / empty / zero bytes / upper-case, "
+             "secret -> edit / other proof's secret / append, genuinely blind-signed secret of 513..2000 bytes, genuinely signed 512-byte secret, forged (random point, H(secret), published key as C)} presented to Swap or MeltTokens with outputs / quote sized to the claimed amount; "
+             "oracle (two-sided): accepted iff len(secret) <= 512 and C == k*hash_to_curve(secret) for the key k of (claimed id, claimed amount) from the independent derivation of the mint's keys from its stored seed. "
+             "non-trivial: a mutated or forged proof that passed the balance pre-check and reached proof verification; distinct = (mutation, target, keysets, amount, prefix of secret and C)."),
+    "level_text": "Generated single-field mutations and forgeries against the real Swap/MeltTokens, judged by an independent implementation of the acceptance condition; honest and harmlessly re-encoded proofs must be accepted, everything else refused.",
+    "level_note": _WORLD_NOTE + "Verdict computed with harness/ref only (BIP-32 re-derivation of m/0'/0'/idx'/i', math/big secp256k1, own hash_to_curve).",
+    "assumptions": ["reference derivation harness/ref correct", "NUT-10 locked secrets are C12/C13's subject and are not generated here"],
+    "units": [
+        rapid("genuine", "^TestGenuine$", 320, 8000, qs=8, ts=16),
+    ],
+}
+
+CHECKS["C06"] = {
+    "pkg": "./checks/c06",
+    "level": "exploration",
+    "technique": "grammar-based request mutation fuzzing (rapid) at every state of a running history, with storage snapshot differencing and panic capture through the in-process handler",
+    "rule": ("rapid state machine (the C02 history machine) interleaved with probes: a valid request for swap / mint / melt / mint quote / melt quote / checkstate / restore is built from the current state and one mutation is applied - "
+             "structural (drop / null / retype / garble a top-level field or a field of a list element with 19 garbage values incl. non-hex, odd-length hex, 10 kB string, unicode, negative / float / huge numbers, arrays, objects, bools; empty a list; empty / truncated / non-JSON / array / null body; wrong content type; wrong payment method) "
+             "or semantic (outputs over by one, duplicate output identical / with changed witness / amount, unknown keyset, non-key amount, non-point B_, already signed B_, overflowing amounts, spent input, unknown quote, underfunded melt, duplicate input with changed witness, forged C), sent through the real HTTP handler in-process; "
+             "plus the degenerate shapes as Go values on the exported API (nil/empty lists, zero requests, unknown ids). "
+             "oracle: (1) no panic (a handler panic is visible because the handler runs in-process); (2) if the answer is not 200, the snapshot read through the inner storage handle (spent and pending rows of all known and referenced Ys, all quote rows, stored signatures of all known and referenced B_, issued/redeemed sums, keysets) is identical before and after, with LN-driven transitions adopted by polling before the first snapshot; (3) the honest request with the same inputs / the same paid quote then succeeds. "
+             "non-trivial: the mutated request referenced >=1 unspent proof or a paid-unissued quote; distinct = (endpoint, mutation class, state size)."),
+    "level_text": "Generated malformed and invalid requests at generated states of the real mint; storage is compared row by row around every refused request and the refused resources are immediately reused honestly.",
+    "level_note": _WORLD_NOTE + "Storage and Lightning faults are C07/C20's subject; here storage works.",
+    "assumptions": ["snapshot covers the objects known to the model plus those referenced by the probe"],
+    "units": [
+        plain("regress", "^TestRegress"),
+        rapid("rejected", "^TestRejected$", 240, 6400, qs=8, ts=16),
+    ],
+}
+
 NOT_APPLICABLE = {}
 HOOK_COMMITS = []
